@@ -59,6 +59,8 @@ THEOREMS = [
     "Cotengra.C07.session_sound",
     "Cotengra.C07.orElse_spec",
     "Cotengra.C07.bestK_sound",
+    "Cotengra.C07.bestK_sorted_argmin",
+    "Cotengra.C07.best_is_argmin",
 ]
 TRUSTED = [
     "Lean 4.33 kernel; axioms within {propext, Classical.choice, Quot.sound}",
